@@ -122,9 +122,9 @@ func main() {
 			}
 		}
 	} else {
-		nT3, nE2E := 400**scale, 700**scale
+		nT3, nE2E := 600**scale, 2000**scale
 		if *tier == "thorough" {
-			nT3, nE2E = 6000**scale, 20000**scale
+			nT3, nE2E = 8000**scale, 40000**scale
 		}
 		if !*nomodel {
 			g.pathCases(nT3 / 2)
